@@ -16,6 +16,9 @@ pub enum SchedSpec {
     /// Calm policy (stay on the current task while it can run, else the lowest runnable id),
     /// except at the listed (step, task) overrides. `Calm` with no overrides is the baseline run.
     Calm { overrides: Vec<(u32, u32)> },
+    /// Static priorities: always run the runnable task that comes first in `order` (tasks not listed rank
+    /// after the listed ones, by id). The most readable kind of schedule a violation can have.
+    Priority { order: Vec<u32> },
     /// Exact replay of a recorded decision list.
     Replay { decisions: Vec<u32> },
 }
@@ -122,6 +125,10 @@ impl Scheduler for SimScheduler {
                 Some((_, t)) if ids.contains(&(*t as usize)) => *t as usize,
                 _ => Self::calm(&ids, cur, is_yielding),
             },
+            SchedSpec::Priority { order } => {
+                let rank = |t: usize| order.iter().position(|o| *o as usize == t).unwrap_or(order.len() + t);
+                *ids.iter().min_by_key(|t| rank(**t)).unwrap()
+            }
             SchedSpec::Replay { decisions } => match decisions.get(step as usize) {
                 Some(t) if ids.contains(&(*t as usize)) => *t as usize,
                 _ => {
